@@ -1902,7 +1902,7 @@ fn round_undriven(seed: u64, hb: &Heartbeat, tot: &Mutex<Tot>, prop: &str) {
     let interval = if r.chance(70) { 1 } else { 61 };
     let bucket0 = hb.now_bucket();
     let (done_tx, done_rx) = std::sync::mpsc::channel::<(usize, bool)>();
-    let (ended_tx, ended_rx) = std::sync::mpsc::channel::<bool>();
+    let (ended_tx, ended_rx) = std::sync::mpsc::channel::<(bool, bool, bool)>();
     let (release_tx, release_rx) = std::sync::mpsc::channel::<()>();
     let started = Arc::new(AtomicU64::new(0));
     let started2 = started.clone();
@@ -1951,7 +1951,10 @@ fn round_undriven(seed: u64, hb: &Heartbeat, tot: &Mutex<Tot>, prop: &str) {
             }
         }
         let ended = rt.block_on(async { tokio::time::timeout(Duration::from_secs(10), jh).await.is_ok() });
-        let _ = ended_tx.send(ended);
+        // the JoinHandle has resolved: from this instant on the actor is over for everybody, whatever still has to run on this runtime
+        let alive_after = a.is_alive();
+        let late_tell_ok = ended && futures::executor::block_on(a.tell(Ping(9999))).is_ok();
+        let _ = ended_tx.send((ended, late_tell_ok, alive_after));
         // the runtime stays alive, nobody drives it
         let _ = release_rx.recv_timeout(Duration::from_secs(30));
         drop(a);
@@ -1960,7 +1963,7 @@ fn round_undriven(seed: u64, hb: &Heartbeat, tot: &Mutex<Tot>, prop: &str) {
             let _ = t.join();
         }
     });
-    let ended = ended_rx.recv_timeout(Duration::from_secs(20)).unwrap_or(false);
+    let (ended, late_tell_ok, alive_after) = ended_rx.recv_timeout(Duration::from_secs(20)).unwrap_or((false, false, false));
     let mut got = vec![];
     let t0 = Instant::now();
     while got.len() < nask && t0.elapsed() < Duration::from_secs(10) {
@@ -1988,6 +1991,15 @@ fn round_undriven(seed: u64, hb: &Heartbeat, tot: &Mutex<Tot>, prop: &str) {
         t.viol.push((
             "C03.complete".into(),
             format!("[undriven-runtime] the actor (capacity {cap}, ended by {}) lived on a current-thread runtime that was driven only until its JoinHandle resolved (event_interval {interval}); {missing} of {nask} asks from outside threads that were queued in its mailbox at that moment were still waiting 10 s later", ["kill", "stop", "a handler panic"][cause as usize]),
+            seed,
+            "undriven".into(),
+        ));
+    }
+    *t.obl.entry("C11.send_after_end").or_default() += 1;
+    if (late_tell_ok || alive_after) && !stalled && (prop == "all" || prop == "C03" || prop == "C12" || prop == "C11") {
+        t.viol.push((
+            "C11.send_after_end".into(),
+            format!("[undriven-runtime] the actor's JoinHandle had resolved (ended by {}); immediately afterwards, on the same thread, is_alive() = {alive_after} and a tell returned {}", ["kill", "stop", "a handler panic"][cause as usize], if late_tell_ok { "Ok(())" } else { "an error" }),
             seed,
             "undriven".into(),
         ));
@@ -2835,6 +2847,31 @@ fn spawn_storm(threads: usize, per_thread: usize, tot: &Mutex<Tot>) {
     }
     for t in ths {
         t.join().unwrap();
+    }
+    // sequential tail: an actor whose on_start fails (and whose handles the caller still holds) followed by a fresh spawn,
+    // and alternating entry points - nothing about an id may ever be handed out twice
+    {
+        let mut local = vec![];
+        let mut keep = vec![];
+        rts[0].block_on(async {
+            for k in 0..24 {
+                let (r, j) = rsactor::spawn::<T3>(());
+                let _ = tokio::time::timeout(Duration::from_secs(5), j).await;
+                let id = r.identity();
+                local.push((id.id, id.name()));
+                keep.push(r.identity());
+                if k % 2 == 0 {
+                    let (r2, _j) = rsactor::spawn::<T1>(());
+                    let id = r2.identity();
+                    local.push((id.id, id.name()));
+                } else {
+                    let (r2, _j) = rsactor::spawn_with_mailbox_capacity::<T2>(1, 2);
+                    let id = r2.identity();
+                    local.push((id.id, id.name()));
+                }
+            }
+        });
+        all.lock().unwrap().extend(local);
     }
     let v = all.lock().unwrap();
     let set: BTreeSet<u64> = v.iter().map(|x| x.0).collect();
